@@ -147,6 +147,16 @@ def apply(s, op):
             r = s.cssRules[op[1]].add(RULES[op[2]]())
         elif k == 'mdel':
             r = s.cssRules[op[1]].deleteRule(op[2])
+        elif k in ('insq', 'minsq'):
+            # the same insertions in log-only mode (errors are logged, not raised): what is refused there is refused silently
+            cssutils.log.raiseExceptions = False
+            try:
+                if k == 'insq':
+                    r = s.insertRule(RULES[op[1]](), op[2])
+                else:
+                    r = _containers(s)[op[1]].insertRule(RULES[op[2]](), op[3])
+            finally:
+                cssutils.log.raiseExceptions = True
         elif k == 'insl':
             r = s.insertRule(_rule_list(op[1]), op[2])
         elif k == 'minsl':
@@ -177,7 +187,7 @@ def _rule_list(k):
     return cssutils.CSSParser(fetcher=fetch).parseString(RULE_LISTS[k], href='http://v/l.css').cssRules
 
 
-PROBES = ('sprop', 'smove', 'insl', 'minsl')  # judged like every transition, but their target states are not expanded (they leave the rule alphabet)
+PROBES = ('sprop', 'smove', 'insl', 'minsl', 'insq', 'minsq')  # judged like every transition, but their target states are not expanded (they leave the rule alphabet)
 
 
 def _styled(s):
@@ -210,10 +220,17 @@ def _containers(s):
 def ops(s, L):
     n = s.cssRules.length
     ns = len(_styled(s))
-    for k in range(len(RULE_LISTS)):
-        yield ('insl', k, n)
-        for c, cont in enumerate(_containers(s)):
-            yield ('minsl', c, k, 0)
+    # probes (judged, not expanded) start from the states below the cap: the states at the cap are the bulk of the search
+    # and differ from them by one more rule of the same alphabet
+    if n < L:
+        for r in ('cs1', 'im1', 'nspu', 'var', 'ff', 'st2', 'pag', 'med0'):
+            yield ('insq', r, n)
+            for c in range(len(_containers(s))):
+                yield ('minsq', c, r, 0)
+        for k in range(len(RULE_LISTS)):
+            yield ('insl', k, n)
+            for c, cont in enumerate(_containers(s)):
+                yield ('minsl', c, k, 0)
     for i in range(ns):
         yield ('sprop', i)
         yield ('smove', i)
